@@ -169,6 +169,8 @@ class Run:
         self.cur_exc = []
         self.specfun_stack = [{}]
         self.watch = {}
+        self.guards = []
+        self.qvars = []
 
     # ---------------------------------------------------------------- decisions / assumptions
     def assume(self, cond):
@@ -231,6 +233,19 @@ class Run:
     def oblige(self, name, goal, kind="assert", note="", expect_sat=False):
         if isinstance(goal, bool):
             goal = z3.BoolVal(goal)
+        if self.guards or self.qvars:
+            # raised while evaluating a comprehension element / conditional expression as a term: the obligation
+            # holds under the enclosing conditions, for every element
+            if self.guards:
+                goal = z3.Implies(z3.And(*self.guards), goal)
+            if self.qvars:
+                goal = z3.ForAll(list(self.qvars), goal)
+            saved = (self.guards, self.qvars)
+            self.guards, self.qvars = [], []
+            try:
+                return self.oblige(name, goal, kind, note, expect_sat)
+            finally:
+                self.guards, self.qvars = saved
         if not expect_sat and z3.is_and(goal) and goal.num_args() > 1:
             # one query per conjunct (smaller queries, and a failure names the clause)
             for k, cj in enumerate(_flatten_and(goal)):
@@ -339,6 +354,9 @@ class Run:
             return ops.from_pyval(self, v, ty)
         if ty is TInt and v.ty is TBool:
             return Val(TInt, z3.If(v.t, 1, 0))
+        h = self.x.reg.stubs.get(("coerce", v.ty.name, ty.name))
+        if h is not None:
+            return h(self, v, ty)
         if isinstance(ty, TObj):
             # injection of a concrete value into an opaque sort (only equality is observable)
             if v.ty is TNone:
@@ -879,8 +897,16 @@ class Run:
     def ex_IfExp(self, node, fr):
         c = self.truth(self.ev(node.test, fr))
         if self.spec:
-            a = self.ev(node.body, fr)
-            b = self.ev(node.orelse, fr)
+            self.guards.append(c)
+            try:
+                a = self.ev(node.body, fr)
+            finally:
+                self.guards.pop()
+            self.guards.append(z3.Not(c))
+            try:
+                b = self.ev(node.orelse, fr)
+            finally:
+                self.guards.pop()
             return ops.ite(self, c, a, b)
         if self.branch(c):
             return self.ev(node.body, fr)
